@@ -675,6 +675,35 @@ pub fn conv_probe_utc(
             "UTC count {u} ns and its TAI conversion (TAI count {tai_ns} ns) do not compare as the same instant (==, cmp or < disagree)"
         ));
     }
+    // Everything else that converts on the way must see one instant too: differences across the
+    // two scales are zero whichever operand comes first, the UNIX and MJD views and the calendar
+    // fields in either scale do not depend on which of the two epochs they are taken from.
+    let zero = duration_ns(0);
+    if (e - tai) != zero || (tai - e) != zero {
+        return Err(format!(
+            "UTC count {u} ns and its TAI conversion differ by {:?} / {:?} (Epoch - Epoch across the two scales)",
+            (e - tai).to_parts(),
+            (tai - e).to_parts()
+        ));
+    }
+    let close = |a: f64, b: f64, unit_s: f64| (a - b).abs() * unit_s <= 1e-6 * (1.0 + a.abs() * unit_s * 1e-9);
+    if !close(e.to_unix_seconds(), tai.to_unix_seconds(), 1.0)
+        || !close(e.to_mjd_utc_days(), tai.to_mjd_utc_days(), 86_400.0)
+        || !close(e.to_mjd_tai_days(), tai.to_mjd_tai_days(), 86_400.0)
+    {
+        return Err(format!(
+            "UTC count {u} ns: the UNIX / MJD views of the epoch and of its TAI conversion differ"
+        ));
+    }
+    if e.to_gregorian_utc() != tai.to_gregorian_utc() || e.to_gregorian_tai() != tai.to_gregorian_tai() {
+        return Err(format!(
+            "UTC count {u} ns: calendar fields differ between the epoch and its TAI conversion: UTC {:?} vs {:?}, TAI {:?} vs {:?}",
+            e.to_gregorian_utc(),
+            tai.to_gregorian_utc(),
+            e.to_gregorian_tai(),
+            tai.to_gregorian_tai()
+        ));
+    }
     // Float views of the same conversion (1 us tolerance: they are views, not the subject).
     let tai_s = tai_ns as f64 / 1e9;
     for (name, v) in [
